@@ -53,7 +53,7 @@ var scope = []string{
 }
 
 var allowed = map[string]map[string]bool{
-	"sync":        set("Mutex", "RWMutex", "Cond", "NewCond", "Once", "WaitGroup", "Locker"),
+	"sync":        set("Mutex", "RWMutex", "Cond", "NewCond", "Once", "WaitGroup", "Locker", "Pool", "Map"),
 	"sync/atomic": set("AddInt32", "AddInt64", "AddUint32", "AddUint64", "AddUintptr", "LoadInt32", "LoadInt64", "LoadUint32", "LoadUint64", "LoadUintptr", "LoadPointer", "StoreInt32", "StoreInt64", "StoreUint32", "StoreUint64", "StoreUintptr", "StorePointer", "SwapInt32", "SwapInt64", "SwapUint32", "SwapUint64", "CompareAndSwapInt32", "CompareAndSwapInt64", "CompareAndSwapUint32", "CompareAndSwapUint64", "Int32", "Int64", "Uint32", "Uint64", "Bool", "Pointer", "Value"),
 	"crypto/rand": set("Read", "Reader"),
 }
